@@ -33,7 +33,7 @@ VARIANTS += [
          [(WK8, "        if had_started and (reps != 1) and (open_at_entry.end is not None):", "        if had_started and (reps > 1) and (open_at_entry.end is not None):")],
          ("C08.6", "DiscoverSubcircuits.visit_BlockStatement:repetition-test"), ("C08",)),
     fire("c08-discover-open-trace-accepted",
-         [(WK8, "            and (self.current is not open_at_entry)\n", "            and False\n")],
+         [(WK8, "            and (self.current is not open_at_entry)\n", "            and False\n", 1)],
          ("C08.6", "open-trace-left-by-loop"), ("C08",)),
 ]
 VARIANTS += [
